@@ -1,4 +1,5 @@
 import Irismod.Props.C12_Coinswap
+import Irismod.Proofs.CoinswapMonitor
 open Irismod Irismod.Sdk Irismod.Coinswap Irismod.CoinswapGenesis Irismod.Props.C12.Coinswap
 #print axioms cs_wf_init
 #print axioms cs_wf_step
@@ -12,6 +13,9 @@ open Irismod Irismod.Sdk Irismod.Coinswap Irismod.CoinswapGenesis Irismod.Props.
 #print axioms cs_inv_roundTrip
 #print axioms cs_next_pool_same
 #print axioms Irismod.Proofs.CoinswapGenesis.lptSeq_lptDenom
+#print axioms Irismod.Proofs.CoinswapMonitor.c12_export_sound
+#print axioms Irismod.Proofs.CoinswapMonitor.c12_reimport_sound
+#print axioms Irismod.Proofs.CoinswapMonitor.c12_index_sound
 
 /-- a concrete history: three pools created out of key order (tokC, tokA, tokB), trades, a parameter change -/
 def g0 : State :=
